@@ -91,6 +91,15 @@ static CO_ERR user_write(CO_OBJ *obj, CO_NODE *node, void *, uint32_t) { uint32_
 // Data == 0xFFFF: a type that refuses to be rewound (Reset fails), like the parameter store entries do for sub-indices > 0
 static CO_ERR user_reset(CO_OBJ *obj, CO_NODE *, uint32_t) { return (uint32_t)obj->Data == 0xFFFFu ? CO_ERR_TYPE_RESET : CO_ERR_NONE; }
 const CO_OBJ_TYPE COTVerifUser = {user_size, 0, user_read, user_write, user_reset};
+// application-defined type with active callbacks (see world.hpp, T_APP)
+static uint32_t app_size(CO_OBJ *, CO_NODE *, uint32_t) { return 4; }
+static bool app_sibling_ok(CO_OBJ *obj, CO_NODE *node) { uint8_t x = 0; return CODictRdByte(&node->Dict, CO_DEV(CO_GET_IDX(obj->Key), CO_GET_SUB(obj->Key) + 1), &x) == CO_ERR_NONE; }
+static CO_ERR app_read(CO_OBJ *obj, CO_NODE *node, void *buf, uint32_t len) { AppObj *a = (AppObj *)obj->Data; if ((a->beh & APP_NESTED_READ) && !app_sibling_ok(obj, node)) return CO_ERR_TYPE_RD; memcpy(buf, a->val, len < 4 ? len : 4); return CO_ERR_NONE; }
+static CO_ERR app_write(CO_OBJ *obj, CO_NODE *node, void *buf, uint32_t len) { AppObj *a = (AppObj *)obj->Data; if ((a->beh & APP_NESTED_READ) && !app_sibling_ok(obj, node)) return CO_ERR_TYPE_WR; memcpy(a->val, buf, len < 4 ? len : 4);
+    if (a->beh & APP_MODE_STOP) CONmtSetMode(&node->Nmt, CO_STOP);
+    if (a->beh & APP_LOCK_SDO) { uint32_t id = 0; if (CODictRdLong(&node->Dict, CO_DEV(0x1200, 1), &id) == CO_ERR_NONE) (void)CODictWrLong(&node->Dict, CO_DEV(0x1200, 1), id | 0x80000000u); }
+    return CO_ERR_NONE; }
+const CO_OBJ_TYPE COTVerifApp = {app_size, 0, app_read, app_write, 0};
 }
 
 // ------------------------------------------------------------------ build / teardown
@@ -103,7 +112,7 @@ static const CO_OBJ_TYPE *type_of(OT t) {
     case T_SYNCID: return CO_TSYNC_ID; case T_SYNCCYCLE: return CO_TSYNC_CYCLE; case T_EMCYID: return CO_TEMCY_ID; case T_EMCYHIST: return CO_TEMCY_HIST;
     case T_SDOID: return CO_TSDO_ID; case T_PDOID: return CO_TPDO_ID; case T_PDOTYPE: return CO_TPDO_TYPE; case T_PDOEVENT: return CO_TPDO_EVENT;
     case T_PDONUM: return CO_TPDO_NUM; case T_PDOMAP: return CO_TPDO_MAP; case T_PARASTORE: return CO_TPARA_STORE; case T_PARARESTORE: return CO_TPARA_RESTORE;
-    case T_USER: return &COTVerifUser;
+    case T_USER: return &COTVerifUser; case T_APP: return &COTVerifApp;
     }
     return nullptr;
 }
@@ -147,6 +156,7 @@ void World::build(int slot, const NodeCfg &cfg, std::vector<ObjSpec> objs, const
             if (!o.bytes.empty()) memcpy(mem, o.bytes.data(), o.bytes.size());
             str->Offset = 0; str->Start = mem; d.Data = (CO_DATA)str; break; }
         case T_USER: d.Data = (CO_DATA)o.val; d.Key |= CO_OBJ_D_____; break;
+        case T_APP: { AppObj *a = (AppObj *)zalloc(S, sizeof(AppObj)); uint32_t v = o.val; memcpy(a->val, &v, 4); a->beh = o.aux; d.Data = (CO_DATA)a; d.Key &= ~(uint32_t)CO_OBJ_D_____; break; }
         case T_HBCONS:
             if (o.sub > 0) { CO_HBCONS *h = (CO_HBCONS *)zalloc(S, sizeof(CO_HBCONS)); h->Time = (uint16_t)o.val; h->NodeId = (uint8_t)o.aux; h->Tmr = -1; d.Data = (CO_DATA)h; d.Key &= ~(uint32_t)CO_OBJ_D_____; break; }
             goto integer;
@@ -198,6 +208,7 @@ static uint32_t raw_of(const ObjSpec &o, const CO_OBJ &d) {
     if ((o.type == T_PARASTORE) && o.sub > 0) return ((CO_PARA *)d.Data)->Value;
     if ((o.type == T_PARARESTORE) && o.sub > 0) return ((CO_PARA *)d.Data)->Default ? 1u : 0u;
     if (o.type == T_USER) return (uint32_t)d.Data;
+    if (o.type == T_APP) { uint32_t v = 0; memcpy(&v, ((AppObj *)d.Data)->val, 4); return v; }
     if (w == 0) return 0;
     if (d.Key & CO_OBJ_D_____) { uint32_t v = (uint32_t)d.Data; return w == 1 ? (v & 0xFF) : w == 2 ? (v & 0xFFFF) : v; }
     uint32_t v = 0; memcpy(&v, (void *)d.Data, (size_t)w); return v;
@@ -217,7 +228,7 @@ void World::setraw(int slot, uint16_t idx, uint8_t sub, uint32_t v) {
 static void bytes_of(const ObjSpec &o, const CO_OBJ &d, std::vector<uint8_t> &out) {
     if (o.type == T_DOMAIN) { CO_OBJ_DOM *dom = (CO_OBJ_DOM *)d.Data; out.insert(out.end(), dom->Start, dom->Start + o.bytes.size()); return; }
     if (o.type == T_STRING) { CO_OBJ_STR *st = (CO_OBJ_STR *)d.Data; out.insert(out.end(), st->Start, st->Start + o.bytes.size() + 1); return; }
-    int w = ot_width(o.type, o.sub); if (o.type == T_USER) w = 4;
+    int w = ot_width(o.type, o.sub); if (o.type == T_USER || o.type == T_APP) w = 4;
     uint32_t v = raw_of(o, d); for (int i = 0; i < w; i++) out.push_back((uint8_t)(v >> (8 * i)));
 }
 std::vector<uint8_t> World::bytes(int slot, uint16_t idx, uint8_t sub) {
